@@ -24,3 +24,8 @@ def run_shard(spec):
 
 def replay(blob):
     return _codec.replay("C14", blob)
+
+
+# thorough tier only: the repository's own test suite, run under the invariant monitors of vlib/suite_monitors.py
+from . import _suite  # noqa: E402
+_suite.attach(globals(), "c14.", "suite.c14.datagram", 500)
